@@ -68,6 +68,9 @@ func checkC11(c *Ctx) {
 			}
 			v = Dict(dedupe(keys), vals[:len(dedupe(keys))])
 		}
+		if i%2 == 0 {
+			v = c19Rich(rng, 2) // objects inside arrays and nested arrays
+		}
 		src := "导入《@JSON》\n输入典\n令文 =（生成JSON：典）\n令回 =（解析JSON：文）\n（显示：回）\n以键、值遍历回：\n\t（显示：键、值）\n（显示：回之所有索引）\n输出（生成JSON：回）\n"
 		add("json-parse", fmt.Sprintf("doc%d", i), src, func(r *Req) { r.Libs = true; r.Inputs = map[string]Val{"典": v} })
 	}
